@@ -62,6 +62,14 @@ var c18Foreign = map[string]string{
 	"sub/notes.md":           "nothing\n",
 	"dir.yaml/inner.txt":     "a directory whose name ends in .yaml\n",
 	"profiles.d/unused.yaml": "version: 1\nname: unused-profile\nvalidity:\n  duration: 1y\n",
+	// configuration text under names that merely contain a configuration suffix
+	"backup.yaml.bak":     "version: 1\nsubject: CN=Backup Copy\n",
+	"old.yml.orig":        "version: 1\nsubject: CN=Orig Copy\n",
+	"notes.json.txt":      "{\"version\": 1, \"subject\": \"CN=Json Notes\"}",
+	"editor.yaml~":        "version: 1\nsubject: CN=Editor Backup\n",
+	"sub/.hidden.yml.swp": "version: 1\nsubject: CN=Swap File\n",
+	"almost.yamlx":        "version: 1\nsubject: CN=Almost\n",
+	"yaml":                "version: 1\nsubject: CN=No Dot\n",
 }
 
 // c18Build constructs the configs and the model's verdict.
